@@ -140,6 +140,53 @@ func main() {
 			}
 		}(w)
 	}
+	// the grammar-driven argument parser is shared by all connections: optional arguments in every order,
+	// skipped optional blocks, nested blocks — on several connections at once
+	optionForms := [][]string{
+		{"HELLO", "3", "SETNAME", "opt-a"}, {"HELLO", "2", "SETNAME", "opt-b"}, {"HELLO", "3"}, {"HELLO"},
+		{"SET", "opt:s", "v", "EX", "100", "NX"}, {"SET", "opt:s", "v", "NX", "EX", "100"}, {"SET", "opt:s", "v", "XX", "GET", "KEEPTTL"},
+		{"SET", "opt:s", "v", "GET"}, {"GETEX", "opt:s", "PERSIST"}, {"GETEX", "opt:s", "PX", "5000"}, {"EXPIRE", "opt:s", "100", "GT"},
+		{"SCAN", "0", "COUNT", "5", "MATCH", "*"}, {"SCAN", "0", "MATCH", "o*", "COUNT", "5", "TYPE", "string"}, {"SCAN", "0", "TYPE", "list"},
+		{"RPUSH", "opt:l", "a", "b", "a"}, {"LPOS", "opt:l", "a", "MAXLEN", "5", "RANK", "1"}, {"LPOS", "opt:l", "a", "COUNT", "0"},
+		{"LPOS", "opt:l", "a", "RANK", "-1", "COUNT", "2", "MAXLEN", "0"}, {"LMPOP", "1", "opt:l", "LEFT", "COUNT", "1"}, {"LMPOP", "1", "opt:l", "RIGHT"},
+		{"SET", "opt:a", "ohmytext"}, {"SET", "opt:b", "mynewtext"}, {"LCS", "opt:a", "opt:b", "IDX", "MINMATCHLEN", "1", "WITHMATCHLEN"},
+		{"LCS", "opt:a", "opt:b", "LEN"}, {"LCS", "opt:a", "opt:b", "IDX"}, {"SORT", "opt:l", "LIMIT", "0", "1", "ALPHA", "DESC"}, {"SORT", "opt:l", "ALPHA"},
+		{"BITFIELD", "opt:bf", "OVERFLOW", "SAT", "INCRBY", "u4", "0", "1", "GET", "u8", "0"}, {"BITFIELD", "opt:bf", "GET", "u8", "0"},
+		{"BITCOUNT", "opt:a", "0", "-1", "BIT"}, {"BITCOUNT", "opt:a"}, {"BITPOS", "opt:a", "1", "0", "-1", "BYTE"}, {"BITPOS", "opt:a", "0"},
+		{"SADD", "opt:x", "a", "b"}, {"SADD", "opt:y", "b"}, {"SINTERCARD", "2", "opt:x", "opt:y", "LIMIT", "1"}, {"SINTERCARD", "2", "opt:x", "opt:y"},
+		{"COPY", "opt:a", "opt:c", "REPLACE"}, {"COPY", "opt:a", "opt:c", "DB", "0", "REPLACE"}, {"HSET", "opt:h", "f", "1"}, {"HRANDFIELD", "opt:h", "2", "WITHVALUES"},
+		{"HRANDFIELD", "opt:h"}, {"CLIENT", "KILL", "ID", "0", "SKIPME", "yes"}, {"CLIENT", "LIST", "TYPE", "normal"}, {"CLIENT", "NO-EVICT", "off"},
+	}
+	for w := 0; w < 3; w++ {
+		wg.Add(1)
+		go func(w int) {
+			defer wg.Done()
+			cl := vs.NewClient()
+			defer cl.Close()
+			for i := w * 7; time.Now().Before(deadline); i++ {
+				cl.Dispatch(toArgv(optionForms[i%len(optionForms)]))
+				atomic.AddInt64(&ops, 1)
+			}
+		}(w)
+	}
+	// commands that take no data store lock put nothing between two parses: the same few forms on four
+	// connections, back to back
+	sessionForms := [][]string{
+		{"HELLO", "3", "SETNAME", "opt-a"}, {"HELLO", "2", "SETNAME", "opt-b"}, {"HELLO", "3"}, {"CLIENT", "KILL", "ID", "0", "SKIPME", "yes"},
+		{"CLIENT", "KILL", "LADDR", "127.0.0.1:1", "TYPE", "pubsub"}, {"CLIENT", "SETNAME", "x"}, {"CLIENT", "NO-EVICT", "on"}, {"PING", "m"}, {"ECHO", "m"},
+	}
+	for w := 0; w < 4; w++ {
+		wg.Add(1)
+		go func(w int) {
+			defer wg.Done()
+			cl := vs.NewClient()
+			defer cl.Close()
+			for i := w; time.Now().Before(deadline); i++ {
+				cl.Dispatch(toArgv(sessionForms[i%len(sessionForms)]))
+				atomic.AddInt64(&ops, 1)
+			}
+		}(w)
+	}
 	// blocked consumers and their pushers, plus CLIENT UNBLOCK
 	for w := 0; w < 3; w++ {
 		wg.Add(2)
